@@ -10,7 +10,7 @@
      SetAttr       attr (iPu | noise_var | pe) assigned on the live object, pe ("zero" | "hi") after it
      SetMetric     name, supplied keys (ns, mod, plen; 0 / "none" = absent), out = "ok" | "rejected"
                    (AttributeError), name_after = metric_name after the call
-     NewChannel    N, rE
+     NewChannel    N, rE, sc (decimal exponent of the channel scale)
      SolveBD / SolveExt / CalcWhitening / CalcReceiveFilter
                    raised (exception text or ""), ns = reported stream counts, evaluated = the predicate
                    names the recorder evaluated numerically, holds = those that held ((rel), 1e-7)
@@ -58,7 +58,7 @@ After(ev) ==
                                 ELSE IF ev.name_after # m2.name THEN <<"metric_name", ev.name_after, m2.name>>
                                 ELSE <<>>]
     [] ev.op = "NewChannel" ->
-         [same EXCEPT !.chan = [N |-> ev.N, rE |-> ev.rE, intact |-> TRUE], !.last = [last EXCEPT !.onCur = FALSE],
+         [same EXCEPT !.chan = [N |-> ev.N, rE |-> ev.rE, sc |-> ev.sc, intact |-> TRUE], !.last = [last EXCEPT !.onCur = FALSE],
                       !.mm = IF obj = NoObj \/ ((ev.rE = 0) # (obj.cls = "BD")) THEN <<"not enabled">> ELSE <<>>]
     [] ev.op = "SolveBD" ->
          LET l2 == BDResult(ev.which, chan)
